@@ -135,36 +135,3 @@ Lemma bodyXYZ_rotation R0 q0 q1 q2 : is_rotation ROps (setToBodyFixedXYZ ROps R0
 Proof. unfold setToBodyFixedXYZ. apply three_angles_rotation; lia. Qed.
 Lemma bodyXY_rotation R0 q0 q1 : is_rotation ROps (setToBodyFixedXY ROps R0 (q0,q1)).
 Proof. unfold setToBodyFixedXY. apply two_angles_rotation; lia. Qed.
-(** ** quaternion -> rotation (translated) *)
-Lemma fromQuat_rotation R0 e0 e1 e2 e3 : e0*e0+e1*e1+e2*e2+e3*e3 = 1 ->
-  is_rotation ROps (k27_fromQuat ROps R0 (e0,e1,e2,e3)).
-Proof. intros H. dmat R0. unf27. repeat split; teq; nsatz_or_fail. Qed.
-Lemma fromQuat_neg R0 R1 e0 e1 e2 e3 :
-  k27_fromQuat ROps R0 (v4_neg ROps (e0,e1,e2,e3)) = k27_fromQuat ROps R1 (e0,e1,e2,e3).
-Proof. dmat R0; dmat R1. unf27. teq; ring. Qed.
-
-(** ** angle-axis -> quaternion -> rotation *)
-Lemma quatFromAngleAxis_unit a u0 u1 u2 : u0*u0+u1*u1+u2*u2 = 1 ->
-  v4_normSqr ROps (quatFromAngleAxis ROps a (u0,u1,u2)) = 1.
-Proof. intros H. generalize (sc1 (a / 2)); intros S. unf27. cbv [Rltb].
-  set (s := sin (a/2)) in *; set (c := cos (a/2)) in *; clearbody s c.
-  destruct (Rlt_dec c 0); clear -H S; nsatz_or_fail. Qed.
-Lemma quatFromAngleAxis_canonical a u0 u1 u2 : 0 <= v4_0 (quatFromAngleAxis ROps a (u0,u1,u2)).
-Proof. unf27. cbv [Rltb]. destruct (Rlt_dec (cos (a / 2)) 0); cbn; lra. Qed.
-Lemma angleAxis_rotation R0 a u0 u1 u2 : u0*u0+u1*u1+u2*u2 = 1 ->
-  is_rotation ROps (setFromAngleAboutUnitVector ROps R0 a (u0,u1,u2)).
-Proof. intros H. unfold setFromAngleAboutUnitVector.
-  generalize (quatFromAngleAxis_unit a u0 u1 u2 H). destruct (quatFromAngleAxis ROps a (u0,u1,u2)) as [[[e0 e1] e2] e3].
-  cbv [v4_normSqr v4_dot]. cbn [nadd nmul ROps]. apply fromQuat_rotation. Qed.
-(** Rodrigues' formula: R = I + sin a [u]x + (1 - cos a) [u]x [u]x *)
-Definition rodrigues (a:R) (u:Vec3 R) : Mat33 R :=
-  let ux := m33_crossMat ROps u in
-  m33_add ROps (m33_add ROps I33 (m33_scale ROps (sin a) ux)) (m33_scale ROps (1 - cos a) (mm ux ux)).
-Lemma angleAxis_is_rodrigues R0 a u0 u1 u2 : u0*u0+u1*u1+u2*u2 = 1 ->
-  setFromAngleAboutUnitVector ROps R0 a (u0,u1,u2) = rodrigues a (u0,u1,u2).
-Proof. intros H. dmat R0. generalize (sc1 (a / 2)); intros S.
-  assert (Hs : sin a = 2 * sin (a/2) * cos (a/2)) by (rewrite <- sin_2a; f_equal; field).
-  assert (Hc : cos a = 1 - 2 * sin (a/2) * sin (a/2)) by (rewrite <- cos_2a_sin; f_equal; field).
-  unfold rodrigues, I33. rewrite Hs, Hc. unf27. cbv [Rltb].
-  set (s := sin (a/2)) in *; set (c := cos (a/2)) in *; clearbody s c.
-  destruct (Rlt_dec c 0); clear -H S; teq; nsatz_or_fail. Qed.
